@@ -112,7 +112,7 @@ fn find_prop(id: &str) -> Option<PropDef> {
 /// Multiplier applied to the base count of every sampled generator (see cmd_run).
 fn workload_scale(prop: &str, tier: Tier) -> u64 {
     let (q, t) = match prop {
-        "C01" => (20, 6),
+        "C01" => (12, 6),
         "C02" => (30, 6),
         "C03" => (60, 6),
         "C04" => (100, 6),
